@@ -180,6 +180,9 @@ func (v *c05) OnStep(x *Ctx, s *St, op Op, post *pf.GameState) string {
 // RunC05 explores the play grid in product with the owes-an-action monitor.
 func RunC05(rep *explore.Report, tier string) {
 	rep.Set("rule", "every reachable state of the play grid in product with the monitor automaton (per-seat 'had a turn since the wager last rose' bits, turns since the last increase or all-in); distinct_nontrivial = round-closing transitions whose closing condition was checked")
+	if RunScenes(rep, tier, Visitors["C05"], GridOpts{Property: "C05"}) {
+		return
+	}
 	RunGrid(rep, PlayGrid(tier), Visitors["C05"], GridOpts{Property: "C05", MaxState: 3000000})
 	// the same oracle on genuinely uninterrupted objects (pure replay, no state cloning)
 	RunGrid(rep, ReplayGrid(tier), Visitors["C05"], GridOpts{Property: "C05", MaxState: 300000, Mode: "replay"})
